@@ -495,6 +495,11 @@ func (c *c02) f16Rule() {
 	wantE := c02SxPhi("EXP", c02SxPhi("-1 + @0", "1 + EXP"))
 	wantF := c02SxPhi("FRAC", c02SxC("&", "8388607", c02SxPhi("2*@0", "FRAC")))
 	want := c02SxC("|", c02SxC("|", "SIGN", fmt.Sprintf("%d + %d*%s", 112<<23, 1<<23, wantE)), wantF)
+	// on the subnormal path EXP is known to be 0, so starting the countdown at the constant 1 is the same
+	wantE1 := c02SxPhi("EXP", c02SxPhi("-1 + @0", "1"))
+	if alt := c02SxC("|", c02SxC("|", "SIGN", fmt.Sprintf("%d + %d*%s", 112<<23, 1<<23, wantE1)), wantF); n == alt {
+		want = alt
+	}
 	ru.Check(n == want, "normal", pos, n, "normal/subnormal result is "+n+", must be "+want+": sign | (e + (127-15)) << 23 | f, where for subnormals e starts at 1 and loses 1 per left shift of f until the hidden bit, which is then masked off")
 	// loop condition: hidden bit (bit 23 and above: the binary32 exponent mask) still clear
 	var conds []string
@@ -566,11 +571,17 @@ func (c *c02) twosRule() {
 				if !ok {
 					continue
 				}
-				// form A: buf[0] & 0x80 (> | !=) 0  => sign bit index 8*len(buf)-1 of SetBytes(buf)
-				if and, ok := fw.SxStripConv(bo.X).(*ssa.BinOp); ok && and.Op == token.AND && g.True && (bo.Op == token.GTR || bo.Op == token.NEQ) {
-					s := env.Of(and)
-					if m := regexp.MustCompile(`^\(& \(idx (\S+) 0\) 128\)$`).FindStringSubmatch(s); m != nil {
-						if z, ok := c02ConstInt(bo.Y); ok && z == 0 {
+				// form A: a test of buf[0] that holds exactly for bytes >= 128 (buf[0]&0x80 > 0, != 0,
+				// buf[0] >= 0x80, ...) => sign bit index 8*len(buf)-1 of SetBytes(buf)
+				if m := regexp.MustCompile(`\(idx (\S+) 0\)`).FindStringSubmatch(env.Of(bo)); m != nil {
+					body := strings.ReplaceAll(env.Of(bo), m[0], "B")
+					top := true
+					for v := int64(0); v < 256 && top; v++ {
+						r, evald := fw.SxEval(body, map[string]int64{"B": v})
+						top = evald && ((r != 0) == g.True) == (v >= 128)
+					}
+					if top {
+						{
 							want := fw.PAtom("(len " + m[1] + ")").MulC(8)
 							decided = true
 							ru.Check(x.Equal(want), key, pos, "modulus 2^(8*len(buf)) for the top bit of buf[0]", "sign test is the top bit of "+m[1]+"[0] (bit 8*len-1 of the big-endian buffer) but the modulus exponent is "+x.String())
